@@ -352,6 +352,62 @@ func worldCodec(w *World) {
 	}
 	checkHonest("after")
 	monitor(honest)
+	// datagram frames: a udp proxy owned by a scripted (released-protocol) client; payload lengths of every residue
+	// modulo 3, because the content travels base64-encoded
+	if w.KnobBool("udp_frames", 60) {
+		w.Check("C17.udp-frames-interoperate")
+		uc := env.newClient("udpc", 1)
+		uc.UDPEcho = true
+		if rr, err := uc.login(""); err == nil && mstr(rr, "error") == "" {
+			if rr, got := uc.register(M{"proxy_name": "ud", "proxy_type": "udp", "remote_port": 20009}); got && mstr(rr, "error") == "" {
+				usock, err := simnet.ListenUDP("udp", &net.UDPAddr{IP: net.ParseIP("10.0.3.77")})
+				if err == nil {
+					pub, _ := simnet.ResolveUDPAddr("udp", "10.0.0.1:20009")
+					ur := newSubRand(w, "udpframes")
+					want := map[string]bool{}
+					for n := 1; n <= 8; n++ {
+						p := make([]byte, ur.Range(1, 40))
+						ur.Fill(p)
+						p[0] = byte(n)
+						want[string(append([]byte{'R'}, p...))] = true
+						usock.WriteToUDP(p, pub)
+						time.Sleep(150 * time.Millisecond)
+					}
+					got := map[string]bool{}
+					buf := make([]byte, 2048)
+					for len(got) < len(want) {
+						usock.SetReadDeadline(time.Now().Add(5 * time.Second))
+						n, _, err := usock.ReadFromUDP(buf)
+						if err != nil {
+							break
+						}
+						got[string(buf[:n])] = true
+					}
+					usock.Close()
+					uc.smu.Lock()
+					bad, seen := append([]string{}, uc.UDPBad...), len(uc.UDPGot)
+					uc.smu.Unlock()
+					if len(bad) > 0 {
+						viol("wire", "udp-content-not-released-encoding", "a released peer cannot decode the content of %d datagram frame(s) frps sent (padded standard base64 expected): %v", len(bad), bad[0])
+					} else if seen == 0 {
+						viol("interop", "udp-frames-not-received", "no datagram frame reached the scripted owner of the udp proxy")
+					} else {
+						miss := 0
+						for k := range want {
+							if !got[k] {
+								miss++
+							}
+						}
+						if miss > 0 {
+							viol("interop", "udp-replies-not-understood", "%d of %d replies sent as released-format datagram frames never reached the user", miss, len(want))
+						}
+					}
+				}
+				monitor(uc)
+			}
+		}
+		uc.Drop()
+	}
 	// work-connection frames
 	honest.smu.Lock()
 	n := len(honest.Starts)
